@@ -78,12 +78,14 @@ def _fock_dm_trace(h):
         h.ensure("trace-sums-every-mode-against-its-own-conjugate-index", isinstance(r, LT) and r.bad is None and r.labels == [] and sorted(r.traced) == list(range(n)), bounded_shape=True)
 
 
-@proof("C16", ST + ":BaseFockState.fidelity")
+@proof("C16", ST + ":BaseFockState.fidelity", native="from native.c16_fock_replay import replay_fidelity; replay_fidelity(OBLIGATION, I)")
 def _fock_fidelity(h):
     st = h.module(ST)
     cases = [(n, m) for n in SIZES for m in range(n)]
     n, mode = cases[h.eng.choose(len(cases), "case")]
-    pure = bool(h.eng.choose(2, "pure"))
+    h._reg("n", n)
+    h._reg("mode", mode)
+    pure = bool(h._reg("pure", h.eng.choose(2, "pure")))
     obj = fstate(h, st, n, pure)
     seen = []
     npx = fake_np(st.np)
